@@ -119,6 +119,22 @@ fn c11_suite<S: ShortGroupSignatureScheme>(em: &mut Emitter, base: &mut Rng, sui
         leaves(&pv, &mut vec![], &mut ls);
         let all_leaf_values: Vec<Value> = ls.iter().map(|(_, v)| v.clone()).collect();
         em.count_n("leaves", ls.len() as u64);
+        // typed mutation the JSON form cannot express: a disclosed hashed claim with the same bytes and the other
+        // print_friendly flag (one byte of the binary encoding)
+        for (sid, dm) in &p.disclosed_messages {
+            for (label, claim) in dm {
+                if let credx::claim::ClaimData::Hashed(h) = claim {
+                    let mut q = p.clone();
+                    let mut h2 = h.clone();
+                    h2.print_friendly = !h2.print_friendly;
+                    q.disclosed_messages.get_mut(sid).unwrap().insert(label.clone(), h2.into());
+                    em.oracle_case(&format!("{} {} print-friendly-flip {} {}", suite, k, sid, label));
+                    if scn.verify(&q).is_ok() {
+                        em.violation("c11:accepted-after-print-friendly-flip", format!("{}: presentation still accepted after flipping print_friendly of the disclosed claim {} of {}", suite, label, sid), scn.replay(json!({"suite": suite, "statement": sid, "label": label})));
+                    }
+                }
+            }
+        }
         // model: what the commitment / encryption verifiers recompute for the honest object
         recommit_lines(em, suite, &scn.schema, &p, &scn.nonce);
         let mut recommit_sample = 0usize;
